@@ -43,6 +43,9 @@ def cases(ctx):
     for name, doc in gen.fixture_docs():
         if name.startswith("github") and ctx.tier != "thorough": continue
         out.append(("fixture:" + name, {"settings": {}, "calls": [{"root": doc}]}))
+    import corpus
+    for cid, cdoc, _ in corpus.documents():
+        if cid.startswith(("hand:", "file:")): out.append(("corpus:" + cid, {"settings": {}, "calls": [{"root": cdoc}]}))
     n = 300 if ctx.tier == "thorough" else 40
     for k in range(n):
         feats = set(gen.DEFAULT_FEATURES) | ({"hostile_names"} if k % 4 == 0 else set())
